@@ -27,6 +27,36 @@ static void run_case(CaseCtx& c)
     GridSpec cs = gen_grid(rng, go);
     bool midpoint = rng.coin(0.5);
     GridSpec fs = midpoint ? refine_midpoint(cs) : refine_arbitrary(rng, cs);
+    // 20%: a level pair of the library's own anisotropically refined hierarchy (piecewise uniform spacings: the coarser
+    // pairs contain intervals a, b, a with the middle one bisected -- patterns a random grid never has)
+    const bool library_grid = !large && rng.coin(0.2);
+    if (library_grid) {
+        double Rmax = go.Rmax, R0 = rng.pick({1e-5, 1e-3, 0.1}) * Rmax;
+        int nr_exp = rng.pick({4, 5}), aniso = rng.pick({1, 2, 3}), depth = rng.range(0, 2);
+        double rr = R0 + rng.uniform(0.05, 0.95) * (Rmax - R0);
+        PolarGrid g(R0, Rmax, nr_exp, -1, rr, aniso, 0);
+        // a level pair needs an odd number of radii on the fine level; coarsen only while the coarser level is again a valid fine level
+        for (int d = 0; d < depth && g.nr() % 2 == 1 && ((g.nr() + 1) / 2) % 2 == 1 && (g.nr() + 1) / 2 >= 9 && g.ntheta() % 8 == 0 && g.ntheta() >= 16; d++)
+            g = coarseningGrid(g);
+        if (g.nr() % 2 == 0 || g.ntheta() % 4 != 0)
+            throw std::runtime_error("library grid is not coarsenable");
+        fs = GridSpec();
+        for (int i = 0; i < g.nr(); i++)
+            fs.radii.push_back(g.radius(i));
+        for (int j = 0; j < g.ntheta(); j++)
+            fs.angles.push_back(g.theta(j));
+        fs.angles.push_back(2.0 * M_PI);
+        fs.radial_kind = "library-anisotropic-" + std::to_string(aniso) + "-depth" + std::to_string(depth);
+        fs.angular_kind = "uniform";
+        midpoint = true;
+        cs = GridSpec();
+        for (size_t i = 0; i < fs.radii.size(); i += 2)
+            cs.radii.push_back(fs.radii[i]);
+        for (size_t j = 0; j < fs.angles.size(); j += 2)
+            cs.angles.push_back(fs.angles[j]);
+        cs.radial_kind = fs.radial_kind;
+        cs.angular_kind = fs.angular_kind;
+    }
     if (rng.coin(0.5)) {
         fs.split = std::nullopt;
         fs.split_kind = "auto";
